@@ -85,6 +85,17 @@ def variants(rng, base):
         if q.z == "free":
             q.dH = float(rng.uniform(-amp, amp))
     yield "perturbed", v
+    if any(o.from_dh is not None for _, o in base.all_obs()):
+        # large perturbation (metres) with instrument/target heights: several iterations in which the reductions
+        # to the marks change; tol-abs raised so that nothing is a gross error
+        v = base.clone()
+        v.params["tol_abs"] = 1e5
+        for q in v.points.values():
+            if q.xy == "free":
+                q.dE, q.dN = [float(x) for x in rng.uniform(-3, 3, 2)]
+            if q.z == "free":
+                q.dH = float(rng.uniform(-3, 3))
+        yield "perturbed-large", v
     v = base.clone()
     om = resolvable_omissions(rng, v, kmax=int(rng.integers(1, 4)))
     if om:
@@ -330,7 +341,8 @@ def run(tier, seed, only=None):
 
     for (i, sub, full, feats, alg), gs, gf in runner.pmap(work_mono, mono):
         wit = dict(seed=seed, index=i, variant="monotonicity", alg=alg, kind=full.kind, features=feats)
-        if ck.sanitizer(gs.rr, wit, prefix="gama-local:") or ck.sanitizer(gf.rr, wit, prefix="gama-local:"):
+        if ck.sanitizer(gs.rr, dict(wit, input=netgen.to_gkf(sub, fr)), prefix="gama-local:") or \
+                ck.sanitizer(gf.rr, dict(wit, input=netgen.to_gkf(full, fr)), prefix="gama-local:"):
             continue
         if gs.rr.timeout or gf.rr.timeout:
             ck.inconc("timeout")
